@@ -26,9 +26,13 @@ SCENARIOS = [      # (script, events, failing handlers, handlers that call stop(
     (["stop", "start", "start"], 1, [], []),
     (["start", "stop", "start"], 3, [], [2]),
     (["start", "start", "stop"], 2, [], []),
+    (["start", "endrep"], 2, [], []),
+    (["start", "stop", "endrep"], 2, [1], []),
+    (["endrep", "start"], 1, [], []),
+    (["start", "endrep", "stop"], 2, [], []),
 ]
-STRICT = ["NoStuckState", "NoLostStart", "EndedFinal", "ThreadGoneAfterEnd", "RefusedWroteNothing", "StopEffective"]
-KNOWN = ["NoStuckStateK", "NoLostStartK", "EndedFinalK", "ThreadGoneK", "RefusedWroteNothing", "StopEffectiveK"]
+STRICT = ["NoStuckState", "NoLostStart", "EndedFinal", "ThreadGoneAfterEnd", "RefusedWroteNothing", "StopEffective", "EndRepEffective"]
+KNOWN = ["NoStuckStateK", "NoLostStartK", "EndedFinalK", "ThreadGoneK", "RefusedWroteNothing", "StopEffectiveK", "EndRepEffectiveK"]
 
 
 def consts(script, nev, faulty, stoppers=(), fixes=(), anyto=False):
@@ -69,6 +73,14 @@ def signatures(log, final):
     rs_writes = [(k, d) for k, d in enumerate(log) if d["k"] == "W" and d["v"] == "rs"]
     if final["rs"] == "STOPPING" and rs_writes and rs_writes[-1][1]["t"] == "c" and rs_writes[-1][1]["x"] == "STOPPING":
         sig.add("race|late_stopping_write")
+    rep_writes = [d for d in log if d["k"] == "W" and d["v"] == "rep"]
+    if final["rep"] == "ENDING" and len(rep_writes) >= 2 and rep_writes[-1]["t"] == "c" and rep_writes[-2]["t"] == "w" and rep_writes[-2]["x"] == "ENDED":
+        sig.add("race|late_ending_write")
+    for k, d in enumerate(log):
+        if d["t"] == "c" and d["k"] == "W" and d["v"] == "rep" and d["x"] == "ENDING":
+            nxt = next((e for e in log[k + 1:] if e["t"] == "w" and e["k"] == "ev" and e["v"] in ("clear", "woke")), None)
+            if nxt is not None and nxt["v"] == "clear" and final["rep"] == "ENDING":
+                sig.add("race|end_replication_wakeup_cleared")
     for k, d in enumerate(log):
         if d["t"] == "c" and d["k"] == "W" and d["v"] == "rs" and d["x"] == "STARTING":
             nxt = next((e for e in log[k + 1:] if e["t"] == "w" and e["k"] == "ev" and e["v"] in ("clear", "woke")), None)
@@ -90,6 +102,9 @@ def observables(ctx, sc, label, case):
         probs.append(("stuck_state", f"at quiescence run_state = {st['rs']} (replication_state = {st['rep']}); commands returned {st['results']}"))
     if starts_ok != segments:
         probs.append(("lost_start", f"{starts_ok} start() calls returned normally but the run thread ran {segments} segment(s); final run_state {st['rs']}"))
+    ends_ok = sum(1 for c_, r in st["results"] if c_ == "end_replication" and r == "ok")
+    if ends_ok and (st["rep"] != "ENDED" or st["rs"] != "ENDED" or "w" not in st["done"]):
+        probs.append(("end_replication_lost", f"end_replication() returned normally but at quiescence replication_state = {st['rep']}, run_state = {st['rs']}, run thread finished = {'w' in st['done']}"))
     if st["rep"] == "ENDED" and (st["rs"] != "ENDED" or "w" not in st["done"]):
         probs.append(("ended_not_final", f"replication ENDED but run_state = {st['rs']}, run thread finished = {'w' in st['done']}"))
     log = SCHED.log
@@ -119,7 +134,11 @@ def observables(ctx, sc, label, case):
                 probs.append(("stop_lost", f"stop() wrote STOPPING but the run thread executed {nexec} more events before parking"))
     for key, detail in probs:
         k = None
-        if "race|late_stopping_write" in sig and key in ("stuck_state", "ended_not_final"):
+        if key == "end_replication_lost" and "race|late_ending_write" in sig:
+            k = "race|late_ending_write"
+        elif key == "end_replication_lost" and "race|end_replication_wakeup_cleared" in sig:
+            k = "race|end_replication_wakeup_cleared"
+        elif "race|late_stopping_write" in sig and key in ("stuck_state", "ended_not_final"):
             k = "race|late_stopping_write"
         elif "race|start_before_wakeup_cleared" in sig:
             k = "race|start_before_wakeup_cleared"
@@ -203,7 +222,7 @@ def overlap_layer(ctx: Ctx):
         diverged = 0
         nbeh = 0
         all_traces = {}
-        for si, (script, nev, faulty, stoppers) in enumerate(SCENARIOS[: ctx.pick(5, 7)]):
+        for si, (script, nev, faulty, stoppers) in enumerate(SCENARIOS[: ctx.pick(9, 11)]):
             c = consts(script, nev, faulty, stoppers)
             # exhaustive: strict invariants expose the known races, the K-invariants must hold
             files, mod, cfg = tlc.mc_files("MC_SimThreads", "SimThreads", c, invariants=KNOWN)
@@ -264,7 +283,7 @@ def overlap_layer(ctx: Ctx):
             tc = dict(c)
             mod = ("---- MODULE TraceSimThreads_gen ----\nEXTENDS TraceSimThreads\n" + "\n".join(f"c_{k} == {v}" for k, v in tc.items()) + "\n====\n")
             cfgt = ("SPECIFICATION TraceSpec\nCONSTANTS\n" + "\n".join(f"  {k} <- c_{k}" for k in tc) +
-                    "\nCONSTRAINT Progress\nPOSTCONDITION Post\n" + "\n".join(f"INVARIANT {i}" for i in ("InvNoStuckStateK", "InvNoLostStartK", "InvEndedFinalK", "InvThreadGoneK", "InvRefused", "InvStopEffectiveK")) +
+                    "\nCONSTRAINT Progress\nPOSTCONDITION Post\n" + "\n".join(f"INVARIANT {i}" for i in ("InvNoStuckStateK", "InvNoLostStartK", "InvEndedFinalK", "InvThreadGoneK", "InvRefused", "InvStopEffectiveK", "InvEndRepEffectiveK")) +
                     "\nCHECK_DEADLOCK FALSE\n")
             rej, st = traces.validate("TraceSimThreads_gen", "TraceSimThreads_gen.cfg", trs, extra_files={"TraceSimThreads_gen.tla": mod, "TraceSimThreads_gen.cfg": cfgt},
                                       timeout=1800, deque=True)
